@@ -7,6 +7,7 @@ package main
 import (
 	"bytes"
 	"fmt"
+	"math/big"
 	"sort"
 	"strconv"
 	"strings"
@@ -930,10 +931,9 @@ func shpPairOk(p *gtab.PairAdjust) bool {
 	return p != nil && shpValueOk(p.First) && shpValueOk(p.Second)
 }
 
-func shpFixedLen(l *gtab.LookupTable) bool {
+func shpMergeFree(l *gtab.LookupTable) bool {
 	for _, s := range l.Subtables {
-		switch s.(type) {
-		case *gtab.Gsub2_1, *gtab.Gsub4_1:
+		if _, ok := s.(*gtab.Gsub4_1); ok {
 			return false
 		}
 	}
@@ -975,19 +975,45 @@ func shpActions(s gtab.Subtable) []gtab.SeqLookup {
 	return out
 }
 
-// shpNestedFixed: every nested action runs a lookup that is absent or length-preserving
-// (nestedFixedLL in Model/ShapeGuard.lean).
-func shpNestedFixed(ll gtab.LookupList) bool {
+// shpNestedMergeFree: every nested action runs a lookup that is absent or contains no
+// ligature substitution (nestedMergeFreeLL in Model/ShapeGuard.lean).
+func shpNestedMergeFree(ll gtab.LookupList) bool {
 	for _, l := range ll {
 		for _, s := range l.Subtables {
 			for _, a := range shpActions(s) {
-				if int(a.LookupListIndex) < len(ll) && !shpFixedLen(ll[a.LookupListIndex]) {
+				if int(a.LookupListIndex) < len(ll) && !shpMergeFree(ll[a.LookupListIndex]) {
 					return false
 				}
 			}
 		}
 	}
 	return true
+}
+
+// shpChain3Ok: every chained context format 3 has a non-empty input sequence.
+func shpChain3Ok(ll gtab.LookupList) bool {
+	for _, l := range ll {
+		for _, s := range l.Subtables {
+			if c, ok := s.(*gtab.ChainedSeqContext3); ok && len(c.Input) == 0 {
+				return false
+			}
+		}
+	}
+	return true
+}
+
+// shpClass says which no-panic theorem covers the lookup list (as the driver does).
+func shpClass(ll gtab.LookupList) string {
+	g, s := shpGuardedSimple(ll)
+	switch {
+	case g && shpChain3Ok(ll):
+		return "proved:C07_no_panic"
+	case g && (s || shpNestedMergeFree(ll)):
+		return "proved:partial"
+	case g:
+		return "open:guarded-only"
+	}
+	return "unguarded"
 }
 
 func shpGuardedSimple(ll gtab.LookupList) (guarded, simple bool) {
@@ -1066,6 +1092,31 @@ func init() {
 		c := shpDecode(f)
 		return shpHistory(c, func(_ *gtab.Context, _, out []glyph.Info) string { return shpSortedText(out) })
 	}
+	// D (length bound of C07_len_bound): len(out) <= len(in) * (1 + stepGrowth)^len(lookups), where
+	// stepGrowth = g + (budget-1)*g and g = longest GSUB 2.1 replacement - 1
+	ops["shape.len"] = func(f Fields) string {
+		c := shpDecode(f)
+		g := 0
+		for _, l := range c.ll {
+			for _, s := range l.Subtables {
+				if m, ok := s.(*gtab.Gsub2_1); ok {
+					for _, r := range m.Repl {
+						if len(r)-1 > g {
+							g = len(r) - 1
+						}
+					}
+				}
+			}
+		}
+		factor := new(big.Int).Exp(big.NewInt(int64(1+g+63*g)), big.NewInt(int64(len(c.lookups))), nil)
+		return shpHistory(c, func(_ *gtab.Context, in, out []glyph.Info) string {
+			bound := new(big.Int).Mul(big.NewInt(int64(len(in))), factor)
+			if big.NewInt(int64(len(out))).Cmp(bound) <= 0 {
+				return "within"
+			}
+			return "exceeds"
+		})
+	}
 	// D (history independence): every call on the reused context gives what a fresh context gives
 	ops["shape.hist"] = func(f Fields) string {
 		c := shpDecode(f)
@@ -1093,11 +1144,7 @@ func init() {
 	// G: both sides evaluate the hypothesis class of C07_no_panic_partial
 	ops["shape.guarded"] = func(f Fields) string {
 		c := shpDecode(f)
-		g, s := shpGuardedSimple(c.ll)
-		if g && (s || shpNestedFixed(c.ll)) {
-			return "guarded"
-		}
-		return "unguarded"
+		return shpClass(c.ll)
 	}
 }
 
@@ -1830,6 +1877,7 @@ func (g *shpGen) emit(c *shpCase, origin string) {
 	g.c.Case(Direct, "shape.text", line, nontrivial)
 	g.c.Case(Direct, "shape.hist", line, nontrivial)
 	g.c.Case(Direct, "shape.safe", line, nontrivial)
+	g.c.Case(Direct, "shape.len", line, nontrivial)
 	g.c.Case(Diagnostic, "shape.stack", line, nontrivial)
 	g.c.Case(Diagnostic, "shape.guarded", line, nontrivial)
 
@@ -1839,16 +1887,21 @@ func (g *shpGen) emit(c *shpCase, origin string) {
 	for _, s := range c.hist {
 		g.c.Stat("sequence length", bucket(len(s)))
 	}
-	switch {
-	case gd && simple:
-		g.c.Stat("hypothesis", "guarded, no contextual subtable (C07_no_panic_partial applies)")
-	case gd && shpNestedFixed(c.ll):
-		g.c.Stat("hypothesis", "guarded, contextual, nested lookups length-preserving (C07_no_panic_nested_fixed applies)")
-	case gd:
-		g.c.Stat("hypothesis", "guarded, contextual with length-changing nested lookups (no theorem; direct stream only)")
+	switch cls := shpClass(c.ll); {
+	case cls == "proved:C07_no_panic" && simple:
+		g.c.Stat("hypothesis", "reader-shaped, no contextual subtable (C07_no_panic)")
+	case cls == "proved:C07_no_panic" && shpNestedMergeFree(c.ll):
+		g.c.Stat("hypothesis", "reader-shaped, contextual, no nested ligature substitution (C07_no_panic)")
+	case cls == "proved:C07_no_panic":
+		g.c.Stat("hypothesis", "reader-shaped, contextual with a nested ligature substitution (C07_no_panic)")
+	case cls == "proved:partial":
+		g.c.Stat("hypothesis", "guarded, chained context 3 with empty input (API only), covered by a partial theorem")
+	case cls == "open:guarded-only":
+		g.c.Stat("hypothesis", "guarded, chained context 3 with empty input (API only) and nested ligature: no theorem, direct stream only")
 	default:
 		g.c.Stat("hypothesis", "unguarded (outside the domain of no-panic; model decides)")
 	}
+	_ = gd
 	changed := false
 	for i, part := range strings.Split(out, "|") {
 		switch {
